@@ -227,8 +227,8 @@ pub fn run_case(prop: PathProp, ctx: &Ctx, b: &mut Batch, sc: &Scenario) {
 pub fn run(prop: PathProp, tier: Tier, seed: u64) -> i32 {
     let ctx = Ctx::new(prop.id(), tier, seed, "exploration");
     let n_cases = match prop {
-        PathProp::C03 => tier.pick(8_000, 120_000),
-        _ => tier.pick(16_000, 300_000),
+        PathProp::C03 => tier.pick(8_000, 600_000),
+        _ => tier.pick(16_000, 1_500_000),
     };
     let hs = hosts(prop);
     let opts = GenOpts { nonconvex: prop == PathProp::C04, ..GenOpts::default() };
@@ -299,7 +299,7 @@ pub fn replay(prop: PathProp, v: &serde_json::Value, file: &str) -> i32 {
 /// most recently (setup / set_problem_definition) and end in its goal.
 fn c02_histories(ctx: &Ctx, tier: Tier, seed: u64) {
     use super::hist::{run_history, Op};
-    let n = tier.pick(4_000, 60_000);
+    let n = tier.pick(4_000, 200_000);
     let shards = 64;
     par_shards(shards, crate::util::n_threads(), |sh| {
         let mut b = Batch::default();
@@ -356,7 +356,7 @@ fn c02_histories(ctx: &Ctx, tier: Tier, seed: u64) {
 /// installed at that moment.
 fn c01_histories(ctx: &Ctx, tier: Tier, seed: u64) {
     use super::hist::{run_history, Op};
-    let n = tier.pick(3_000, 40_000);
+    let n = tier.pick(3_000, 150_000);
     let shards = 64;
     par_shards(shards, crate::util::n_threads(), |sh| {
         let mut b = Batch::default();
